@@ -1,0 +1,24 @@
+//go:build verif
+
+// Round 6, area K: nsqlookupd.NewOptions - the defaults the daemon runs with when nothing is configured (C14 C15). Comment-only file.
+
+package nsqlookupd
+
+// os.Hostname: a name or an error; log.Fatal prints and calls os.Exit(1): it does not return (package log documentation). Assumed at the
+// one call in NewOptions (std.spec lists log.* as benign = "returns, no effect", the cautious reading everywhere else).
+//@ extern[in github.com/nsqio/nsq/nsqlookupd] log.Fatal(v)
+//@   ensures[does-not-return] false
+//@   modifies
+
+// NewOptions (C14: "recently-pinged" = within the inactivity timeout, "a tombstone ... lapses after the tombstone lifetime"): a NEW options
+// object with exactly the documented defaults - inactive-producer-timeout 300 s, tombstone-lifetime 45 s, TCP 0.0.0.0:4160, HTTP
+// 0.0.0.0:4161, log level INFO, prefix "[nsqlookupd] ", no logger (New installs one); nothing that exists is written.
+//@ func NewOptions() *Options
+//@   props C14 C15
+//@   ensures[fresh-options] result != nil && fresh(result)
+//@   ensures[inactive-producer-timeout-300s] result.InactiveProducerTimeout == 300 * time.Second && result.InactiveProducerTimeout == 300000000000
+//@   ensures[tombstone-lifetime-45s] result.TombstoneLifetime == 45 * time.Second && result.TombstoneLifetime == 45000000000
+//@   ensures[listen-addresses] result.TCPAddress == "0.0.0.0:4160" && result.HTTPAddress == "0.0.0.0:4161"
+//@   ensures[log-defaults] result.LogLevel == lg.INFO && result.LogPrefix == "[nsqlookupd] " && result.Logger == nil
+//@   modifies
+//@   nochan
